@@ -31,6 +31,7 @@ CONFIGS = {
     "C32": ["-DASCON_FORCE_C32"],
     "DX": ["-DASCON_FORCE_DIRECT_XOR"],
     "GEN": ["-DASCON_FORCE_GENERIC"],
+    "GENCHK": ["-DASCON_FORCE_GENERIC", "-DASCON_CHECK_ACQUIRE_RELEASE"],
     # default on this host: sliced64 C helpers around the x86-64 assembly
     # permutation (the permutation itself is then an assumed contract)
     "DEF": [],
